@@ -55,6 +55,29 @@ CHECKS = {
              'EnsembleError message text compared modulo the RemoteException(...) wrapper; Legacy/RemoteExc.lean keeps the '
              'pinned behaviour of finding F22 (shared exception object, pickle memo) with a witness.',
         ref='§5 C15', engine='E3-differential+lean'),
+    'C16': dict(
+        technique='Lean 4 proof (inductive invariants, decreasing measure and progress over an LTS model of async_fifo_stream; outcome of both the async and the sync model shown to be the same function of the configuration) + trace refinement and differential runs of the real async code under a virtual-time event loop / deterministic scheduler against the real sync code',
+        text='C16_async_eq_spec (after every action list the async model has delivered exactly element i paired with '
+             'element i\'s own outcome, i < k; complete runs deliver all n; worker entered exactly once per delivered '
+             'non-rejected element), C16_async_eq_sync (any complete run of the async model and any complete run of the '
+             'fifo_stream model on configurations agreeing on input, source ending, preprocessor plan, worker failure '
+             'plan and return_exceptions deliver the same pairs and end the same way: both equal outcome c), '
+             'C16_pre_reject_own_exception, C16_async_first_failure / _source_failure, C16_async_terminates / _progress '
+             '/ _completes (the async iteration cannot hang), for every completion order, interleaving, capacity and '
+             'failure plan. Tie on every run: the real async_fifo_stream and AsyncParmapperAsync run under a virtual-time '
+             'asyncio loop (all completion orders of n<=4/5 calls enumerated, boundary and random cases), their event '
+             'traces are validated against the model by the Lean driver and the model\'s delivered values / outcome are '
+             'compared with the real outputs; the same case runs through the real fifo_stream / Stream.parmap and a '
+             'monitor compares values, exception objects, order, pairing and ending; AsyncServer.stream/call and '
+             'AsyncParmapper run against Server.stream/call and Stream.parmap under the deterministic scheduler '
+             '(monitors).',
+        note='Lean 4 kernel + axioms {propext, Classical.choice, Quot.sound}; hand-written models (AFifo, Fifo) tied to '
+             '/repo on the cases explored per run (sampled + small exhaustive families, not all inputs); asyncio.Queue, '
+             'Task.cancel, futures modelled, not verified; the thread-mixing variants (AsyncServer, AsyncParmapper) are '
+             'covered in Lean only through the async_fifo_stream/fifo_stream theorems they delegate to, and by monitors '
+             'under the scheduler; process servlets/executors not run; asyncgen GC finalisation not exercised. Requires '
+             'fixes F1 and F7a (fixes/): on the unrepaired tree the check reports the violations with replays.',
+        ref='§5 C16', engine='E2-vloop+E1-detsched+lean'),
 }
 
 CHECKS['C06'] = dict(
@@ -107,6 +130,7 @@ def main():
             dict(name='lean', path='lean/', serves_properties=sorted(CHECKS), kind_free_text='Lean 4 models, theorems, compiled trace-validation driver (drv)'),
             dict(name='E1-detsched', path='harness/detsched.py', serves_properties=[p for p in sorted(CHECKS)],
                  kind_free_text='deterministic cooperative scheduler for real Python threads + virtual clock'),
+            dict(name='E2-vloop', path='harness/vloop.py', serves_properties=[p for p in sorted(CHECKS) if p == 'C16'], kind_free_text='virtual-time asyncio event loop (pure-asyncio code; completion order decided by generated durations; exact hang detection)'),
         ],
         checks=checks,
         notes='See DESIGN.md. KNOWN_FINDINGS.txt lists known: and fixed: entries.',
